@@ -11,6 +11,7 @@ build:
   block <sym>                           append a block to the last assembly
   comp <vol> <psym> [nuc..] [nd..]      append a component to the last block
 paths: []=core [i]=assembly [i,j]=block [i,j,k]=component
+selections: elements [sym..] [[iso..],..]   masssel <path> [name..]   massfracsel <path> [name..]
 queries:  snap <path> [nuc..]  -> [vol,density,massTotal,nd..,mass..]      nucs <path> -> sorted nuclides
           massfracs <path> [nuc..]    atoms <path> <nuc>    volfracs <path>
 edits (answer ok | reject):
@@ -27,11 +28,14 @@ stateless conversions:
 structure St where
   K : Rat := 1
   barn : Rat := 1
-  aw : List (Nat × Rat) := []
+  aw : Array Rat := #[]
   core : Core := { sym := 1, volCoded := none, kids := [] }
+  elem : List (Nat × List Nat) := []
+
+def St.elemTable (s : St) : ElemTable := fun n => (s.elem.find? (fun p => p.1 = n)).map (·.2)
 
 def St.phys (s : St) : Phys :=
-  { K := s.K, barn := s.barn, aw := fun n => NDens.get s.aw n }
+  { K := s.K, barn := s.barn, aw := fun n => s.aw.getD n 0 }
 
 def modifyNth {α : Type} (l : List α) (i : Nat) (f : α → Option α) : Option (List α) :=
   match l[i]? with
@@ -87,7 +91,11 @@ def step (s : St) (ws : List String) : St × String :=
   | ["phys", k, b, ns, ws] =>
     match parseRat? k, parseRat? b, parseNatList? ns, parseRatList? ws with
     | some k, some b, some ns, some ws =>
-      if ns.length = ws.length then ({ s with K := k, barn := b, aw := ns.zip ws }, "ok") else (s, "bad-op")
+      if ns.length = ws.length then
+        let size := (ns.foldl max 0) + 1
+        let arr := (ns.zip ws).foldl (fun (a : Array Rat) p => a.setIfInBounds p.1 p.2) (Array.replicate size 0)
+        ({ s with K := k, barn := b, aw := arr }, "ok")
+      else (s, "bad-op")
     | _, _, _, _ => (s, "bad-op")
   | ["assem", sym, areas, hs] =>
     match parseRat? sym, parseRatList? areas, parseRatList? hs with
@@ -112,7 +120,26 @@ def step (s : St) (ws : List String) : St × String :=
         ({ s with core := { s.core with kids := (a' :: rest).reverse } }, "ok")
       | _, _ => (s, "bad-op")
     | _, _, _, _, _ => (s, "bad-op")
+  | ["elements", syms, isos] =>
+    match parseNatList? syms, parseList? parseNatList? isos with
+    | some syms, some isos =>
+      if syms.length = isos.length then ({ s with elem := syms.zip isos }, "ok") else (s, "bad-op")
+    | _, _ => (s, "bad-op")
   -- queries
+  | ["masssel", path, spec] =>
+    match parseNatList? path, parseNatList? spec with
+    | some [], some spec => (s, showRat (coreMassSel ph s.elemTable s.core spec))
+    | some [i], some spec => match s.core.kids[i]? with
+        | some a => (s, showRat (assemMassSel ph s.elemTable a spec)) | none => (s, "bad-op")
+    | some [i, j], some spec => match s.core.kids[i]? >>= (·.kids[j]?) with
+        | some b => (s, showRat (blockMassSel ph s.elemTable b spec)) | none => (s, "bad-op")
+    | some [i, j, k], some spec => match s.core.kids[i]? >>= (·.kids[j]?) >>= (·.kids[k]?) with
+        | some c => (s, showRat (c.massSel ph s.elemTable spec)) | none => (s, "bad-op")
+    | _, _ => (s, "bad-op")
+  | ["massfracsel", path, spec] =>
+    match parseNatList? path, parseNatList? spec with
+    | some p, some spec => (s, queryAt ph s.core p (fun o a => showRat (massFracSel o ph s.elemTable a spec)))
+    | _, _ => (s, "bad-op")
   | ["snap", path, ns] =>
     match parseNatList? path, parseNatList? ns with
     | some p, some ns =>
